@@ -65,7 +65,7 @@ def make_scratch(tag):
     return d
 
 
-def extract(scratch, gen_dialect=True):
+def extract(scratch, gen_dialect=True, contracts=False):
     """T1..T4: returns statistics about what was changed."""
     crate = os.path.join(scratch, "crate")
     os.makedirs(crate)
@@ -100,6 +100,14 @@ def extract(scratch, gen_dialect=True):
             stats["dropped"].append(
                 "T2: vtable address as tie-breaker between two entries with equal data address in utils::get_locks (%d site)" % n
             )
+    # T3: Kani function-contract attributes
+    if contracts:
+        sys.path.insert(0, os.path.join(VERIF, "tools"))
+        import t3_contracts
+        try:
+            stats["T3_contracts"] = t3_contracts.apply(crate)
+        except SystemExit as e:
+            raise Undecided(str(e))
     # T4: unwind-to-Result dialect
     if gen_dialect:
         u2r = os.path.join(VERIF, "tools/u2r/target/release/u2r")
@@ -116,18 +124,42 @@ def extract(scratch, gen_dialect=True):
     return crate, stats
 
 
+PEEK_MODULE = {"peek/key.rs": "key::verif_peek::contract_proofs", "peek/poisonable.rs": "poisonable::verif_peek::contract_proofs"}
+
+
 def harness_names():
-    """All harness function names defined in /verif/harness (inside vharness!-style macros or with #[kani::proof])."""
+    """All harness function names -> module path (inside /verif/harness, or contract proofs inside a peek module)."""
     names = {}
     hdir = os.path.join(VERIF, "harness")
+    pat = re.compile(r"^\s*fn\s+((?:c\d\d|col|sl|dia|probe|st|shape|nest|pz)_[a-z0-9_]+)\s*\(\s*\)", re.M)
     for root, _, files in os.walk(hdir):
         for fn in files:
             if not fn.endswith(".rs"):
                 continue
             text = open(os.path.join(root, fn)).read()
-            for m in re.finditer(r"^\s*fn\s+((?:c\d\d|col|sl|dia|probe|st|shape|nest|pz)_[a-z0-9_]+)\s*\(\s*\)", text, re.M):
-                names[m.group(1)] = os.path.relpath(os.path.join(root, fn), hdir)
+            rel = os.path.relpath(os.path.join(root, fn), hdir)
+            mod = "verif::" + rel[:-3].replace("/", "::")
+            if rel == "contracts.rs":
+                mod += "::proofs"
+            for m in pat.finditer(text):
+                names[m.group(1)] = mod
+    for peek, mod in PEEK_MODULE.items():
+        text = open(os.path.join(VERIF, peek)).read()
+        for m in pat.finditer(text):
+            names[m.group(1)] = mod
     return names
+
+
+def harness_file(name):
+    """source file (relative to the scratch crate's src/) that holds the harness"""
+    mod = harness_names().get(name, "")
+    if mod.startswith("verif::"):
+        return "verif/" + mod[len("verif::"):].replace("::proofs", "").replace("::", "/") + ".rs"
+    if mod.startswith("key::"):
+        return "key.rs"
+    if mod.startswith("poisonable::"):
+        return "poisonable.rs"
+    return None
 
 
 def named_obligations_in_sources():
@@ -146,15 +178,14 @@ def named_obligations_in_sources():
 # running kani
 
 
-def run_kani(crate, harnesses, timeout_s, jobs=16, extra=None, dialect=False):
+def run_kani(crate, harnesses, timeout_s, jobs=16, extra=None, dialect=False, contracts=False):
     out_json = os.path.join(crate, "kani-results.json")
     if os.path.exists(out_json):
         os.remove(out_json)
     cmd = ["cargo", "kani"] + KANI_FLAGS
     files = harness_names()
     for h in harnesses:
-        rel = files.get(h)
-        mod = "verif::" + rel[:-3].replace("/", "::") if rel else None
+        mod = files.get(h)
         cmd += ["--harness", "%s::%s" % (mod, h) if mod else h]
     cmd += ["--exact"]
     cmd += ["-j", str(jobs), "--output-format", "terse", "--harness-timeout", "%ds" % timeout_s, "--export-json", out_json]
@@ -163,7 +194,7 @@ def run_kani(crate, harnesses, timeout_s, jobs=16, extra=None, dialect=False):
     if extra:
         cmd += extra
     env = dict(os.environ)
-    env["RUSTFLAGS"] = RUSTFLAGS + (" --cfg verif_dialect" if dialect else "")
+    env["RUSTFLAGS"] = RUSTFLAGS + (" --cfg verif_dialect" if dialect else "") + (" --cfg verif_contracts" if contracts else "")
     env["CARGO_NET_OFFLINE"] = "true"
     env.pop("RUSTUP_TOOLCHAIN", None)
     t0 = time.time()
@@ -223,7 +254,7 @@ def classify(results, wanted, stdout, prop):
                 continue
             info["checks"] += 1
             is_named = bool(NAMED.match(clean))
-            if is_named and prop not in ("DEV", "DIA") and not clean.startswith(prop + "_") and not clean.startswith("U_"):
+            if is_named and prop not in ("DEV", "DIA", "CON") and not clean.startswith(prop + "_") and not clean.startswith("U_"):
                 # obligation owned by another property (shared harness): not counted here
                 if status == "Failure":
                     refuted.append({"harness": short, "obligation": clean.split(":")[0], "description": clean, "location": where})
@@ -378,11 +409,10 @@ def concrete_playback(crate, harness, dialect=False):
 def native_replay(crate, harness, test_src, dialect=False):
     """Runs the harness body natively with Kani's concrete values: `cargo kani playback`."""
     # put the generated unit test next to the harness
-    files = harness_names()
-    rel = files.get(harness)
+    rel = harness_file(harness)
     if not rel:
         return {"native": "harness file not found"}
-    path = os.path.join(crate, "src/verif", rel)
+    path = os.path.join(crate, "src", rel)
     text = open(path).read()
     mname = re.search(r"fn\s+(kani_concrete_playback_\w+)", test_src)
     if not mname:
@@ -450,12 +480,12 @@ def main():
     kani_wall = 0.0
     try:
         try:
-            crate, stats = extract(scratch, gen_dialect=cfg.get("dialect", False))
+            crate, stats = extract(scratch, gen_dialect=cfg.get("dialect", False), contracts=cfg.get("contracts", False))
         except Undecided as e:
             undecided.append(("*", str(e)))
             crate = None
         if crate and wanted:
-            r, results, kani_wall, kani_cmd = run_kani(crate, wanted, timeout_s, jobs=args.jobs, dialect=cfg.get("dialect", False))
+            r, results, kani_wall, kani_cmd = run_kani(crate, wanted, timeout_s, jobs=args.jobs, dialect=cfg.get("dialect", False), contracts=cfg.get("contracts", False))
             stdout_tail = (r.stdout or "")[-8000:]
             logdir = os.environ.get("VERIF_EVIDENCE_DIR", os.path.join(VERIF, "logs"))
             os.makedirs(logdir, exist_ok=True)
@@ -487,7 +517,7 @@ def main():
         own = []
         for it in refuted:
             tag = it["obligation"][:3]
-            if prop in ("DEV", "DIA") or it["obligation"].startswith("kani_safety") or tag == prop or it["obligation"].startswith("U_"):
+            if prop in ("DEV", "DIA", "CON") or it["obligation"].startswith("kani_safety") or tag == prop or it["obligation"].startswith("U_"):
                 own.append(it)
             else:
                 # an obligation owned by another property failed in a shared harness: the paths behind
